@@ -16,16 +16,24 @@ BASE_MIX = [
     ("greedy", {"max_pools": 1, "max_workers": 2, "max_q": 2, "frequencies": [-1, 1, 3], "delays": [0, 1, 3]}, 0.15),
     ("planner", {}, 0.20),
     ("clockwork", {}, 0.10),
+    # memory for one or two of three or four models: the policy must evict (and re-load) models to serve all of them
+    ("clockwork", {"tight_memory": True, "p_preload": 0.0, "max_invocations": 10}, 0.05),
     # the batching mode of the planners: small bursts of model-serving requests (see worldgen: small_burst)
-    ("clockwork", {"small_burst": True, "loop_timeout": 150, "flags": dict(BATCHING_FLAGS, scheduler="ILP")}, 0.04),
+    ("clockwork", {"small_burst": True, "loop_timeout": 150, "flags": dict(BATCHING_FLAGS, scheduler="ILP")}, 0.03),
     ("clockwork", {"small_burst": True, "loop_timeout": 150,
-                   "flags": dict(BATCHING_FLAGS, scheduler="TetriSched_CPLEX", scheduler_time_discretization=1, scheduler_plan_ahead=12)}, 0.04),
+                   "flags": dict(BATCHING_FLAGS, scheduler="TetriSched_CPLEX", scheduler_time_discretization=1, scheduler_plan_ahead=12)}, 0.03),
+    # ... with runtime variance: the members of one running batch then finish at different times
+    ("clockwork", {"small_burst": True, "loop_timeout": 500, "runtime_scale": 10,
+                   "flags": dict(BATCHING_FLAGS, scheduler="ILP", runtime_variance=50)}, 0.03),
+    ("clockwork", {"small_burst": True, "loop_timeout": 500, "runtime_scale": 10,
+                   "flags": dict(BATCHING_FLAGS, scheduler="TetriSched_CPLEX", scheduler_time_discretization=5, scheduler_plan_ahead=100,
+                                 runtime_variance=50)}, 0.03),
 ]
 
 N_WORLDS = {"quick": 320, "thorough": 7000}
 # direct-drive simulations with the chaos policy (vmon/direct.py): multi-timestamp graphs, hostile decisions
 N_DIRECT = {"quick": 480, "thorough": 12000}
-DIRECT_PIDS = ("C01", "C02", "C03", "C05", "C06", "C10")
+DIRECT_PIDS = ("C01", "C02", "C03", "C05", "C06", "C08", "C10")
 N_DIRECT_C10 = {"quick": 240, "thorough": 6000}
 
 RULES = {
@@ -65,6 +73,10 @@ class E2ECheck:
                 ("greedy", {"shapes": cond, "flags": {"resolve_conditionals_at_submission": True}}, 0.25),
                 ("planner", {"shapes": cond, "max_nodes": 8, "flags": {"resolve_conditionals_at_submission": True}}, 0.05),
             ]
+        if self.pid == "C05":
+            # loop timeouts that strike mid-run (running / scheduled / unreleased work at the timeout)
+            return BASE_MIX + [("greedy", {"tight_timeout": True, "frequencies": [-1, 1, 3, 10, 25]}, 0.15),
+                               ("planner", {"tight_timeout": True}, 0.04)]
         return BASE_MIX
 
     def shards(self, tier, seed):
@@ -240,7 +252,10 @@ class E2ECheck:
                     ("utilization rows vs shadow", tot.get("utilization_rows", 0), 500),
                     ("direct-drive profile loads applied under the chaos policy", tot.get("direct_live_load", 0), 100),
                     ("direct-drive batch placements recounted (a batch counts once)", tot.get("direct_live_batch_place", 0), 100),
-                    ("worker profile tables compared with the harness' record of successful loads", tot.get("direct_profile_table_checks", 0), 10000)]
+                    ("worker profile tables compared with the harness' record of successful loads", tot.get("direct_profile_table_checks", 0), 10000),
+                    ("applied profile loads compared with the decided loading strategy (e2e + direct)",
+                     tot.get("applied_profile_loads_judged", 0) + tot.get("direct_applied_profile_loads_judged", 0), 200),
+                    ("direct-drive re-loads of a resident profile in one answer (evict + load)", tot.get("direct_chaos_reloads_in_place", 0), 20)]
         if p == "C02":
             return [("Task.start ordering automaton", tot.get("starts", 0), 1000),
                     ("direct-drive starts of tasks with parents under the chaos policy", tot.get("direct_starts_with_parents", 0), 1000),
@@ -255,6 +270,7 @@ class E2ECheck:
                     ("due-completion checks (e2e + direct)", tot.get("due_completion_checks", 0) + tot.get("direct_due_completion_checks", 0), 5000)]
         if p == "C05":
             return [("terminated runs", tot.get("ev_SIMULATOR_END", 0), 200),
+                    ("runs whose loop timeout struck while work was in flight or unreleased", tot.get("ended_at_timeout_with_work", 0), 20),
                     ("direct-drive runs judged by the early-end rule", tot.get("direct_early_end_judged", 0), 100),
                     ("streaming-loader updates that found nothing new (quiet windows)", tot.get("direct_loader_quiet_windows", 0), 200)]
         if p == "C06":
@@ -272,6 +288,7 @@ class E2ECheck:
                     ("completions of a conditional that is also the join of the previous one", tot.get("conditional_completions_of_a_join", 0), 10)]
         if p == "C08":
             return [("CSV rows compared", tot.get("csv_rows", 0), 10000), ("traces parsed by CSVReader", tot.get("csvreader_parsed", 0), 150),
+                    ("direct-drive TASK_RELEASE rows judged (profiles of different graphs share names)", tot.get("direct_release_rows_judged", 0), 1000),
                     ("scheduler rows compared", tot.get("scheduler_rows_checked", 0), 1000)]
         return []
 
